@@ -37,11 +37,11 @@ PROPS = {"C18"}
 TIERS = {
     "quick": dict(
         mc=["MC_Faults", "MC_FaultsAny", "MC_FaultsRT", "MC_FaultsLate", "MC_FaultsLive"],
-        paths=["Gen_Faults2"], sim=[("Gen_Faults3", 1500, 90), ("Gen_Faults4", 600, 110)],
+        paths=["Gen_Faults2", "Gen_FaultsE"], sim=[("Gen_Faults3", 1500, 90), ("Gen_Faults4", 600, 110)],
         stress_runs=150, stress_maxcalls=3000, small_runs=400, grpc_runs=8, hidden3=40),
     "thorough": dict(
         mc=["MC_Faults", "MC_FaultsAny", "MC_FaultsRT", "MC_FaultsLate", "MC_FaultsLive", "MC_Faults_thorough"],
-        paths=["Gen_Faults2", "Gen_Faults3x"], sim=[("Gen_Faults3", 20000, 90), ("Gen_Faults4", 20000, 110)],
+        paths=["Gen_Faults2", "Gen_FaultsE", "Gen_Faults3x"], sim=[("Gen_Faults3", 20000, 90), ("Gen_Faults4", 20000, 110)],
         stress_runs=1200, stress_maxcalls=6000, small_runs=4000, grpc_runs=40, hidden3=1000),
 }
 
